@@ -135,7 +135,11 @@ def hasTilde (t : Tilde) : Bool := t != .no
 /-- `os.path.expanduser(s)`: a `str`; only a leading `~` is replaced (by `$HOME`, which contains none) -/
 def expanduser : Tilde → StoreRef | .home => .str .no | t => .str t
 
-/-- `os.path.exists(x)` -/
+/-- `is_remote_url(str(p))`: the `str`/`Path` locations of this model are local (their content is the
+store state); http/ftp URLs are outside it -/
+def isRemoteUrl (_ : Tilde) : Bool := false
+
+/-- `os.path.exists(x)` / `x.exists()` -/
 def osPathExists : StoreRef → Prog Bool
   | .str t | .path t => if t = .home then unmodelled else do let kv ← look; Prog.pure (!kv.isEmpty)
   | .pathOfObj onDisk => Prog.pure onDisk
